@@ -47,6 +47,11 @@ inductive Val where
   | keys (ks : List Bytes)      -- types.LocalDBSet{KV:[{Key:k}]...}
   deriving DecidableEq, Repr
 
+/-- the short-hash key `STX:hash[:8]` (shared by all transactions whose hashes agree on the first 8 bytes). -/
+def Key.isStx : Key → Bool
+  | .stx _ => true
+  | _ => false
+
 /-- the protobuf encoding of the value is the empty byte string. -/
 def Val.isEmptyEnc : Val → Bool
   | .blob b => b.isEmpty
